@@ -1,4 +1,4 @@
-"""KNOWN FINDING C04-reentrant-reroute: priority pre-emption with 're-route' where the victim's next node is the SAME
+"""C04, C05 (D36, formerly listed as findings *-reentrant-reroute, priority half; fixed by /repo d6ef662): priority pre-emption with 're-route' where the victim's next node is the SAME
 node: the victim re-enters during preempt(), the nested accept starts the pre-emptor on the freed server, and preempt()
 then attaches the server to the pre-emptor a second time (two service-time samples for one start)."""
 import ciw
